@@ -19,9 +19,13 @@ func init() { register("C02", c02) }
 type streamCase struct {
 	kind, cprog, hprog string
 	n, m               int // messages caller->handler, handler->caller (where the program has such a count)
+	size               int // pad messages to this many bytes (0: short)
 }
 
 func (c streamCase) name() string {
+	if c.size > 0 {
+		return fmt.Sprintf("%s/%s/%s/n=%d/m=%d/size=%d", c.kind, c.cprog, c.hprog, c.n, c.m, c.size)
+	}
 	return fmt.Sprintf("%s/%s/%s/n=%d/m=%d", c.kind, c.cprog, c.hprog, c.n, c.m)
 }
 
@@ -59,7 +63,7 @@ func (c streamCase) runCaller(w *env.World, cc grpc.ClientConnInterface, ctx con
 		sent := false
 		vsched.GoNamed("sender-"+r.Tag, func() {
 			for i := 0; i < c.n; i++ {
-				if env.CSend(r, cs, fmt.Sprintf("%s.m%d", r.Tag, i)) != nil {
+				if env.CSend(r, cs, env.Pad(fmt.Sprintf("%s.m%d", r.Tag, i))) != nil {
 					break
 				}
 			}
@@ -77,18 +81,18 @@ func (c streamCase) runCaller(w *env.World, cc grpc.ClientConnInterface, ctx con
 func c02Cases(maxN int) []streamCase {
 	var out []streamCase
 	for n := 0; n <= maxN; n++ {
-		out = append(out, streamCase{"Bidi", "sendall", "echo", n, 0})
-		out = append(out, streamCase{"Bidi", "concurrent", "echo", n, 0})
+		out = append(out, streamCase{"Bidi", "sendall", "echo", n, 0, 0})
+		out = append(out, streamCase{"Bidi", "concurrent", "echo", n, 0, 0})
 		if n > 0 {
-			out = append(out, streamCase{"Bidi", "pingpong", "echo", n, 0})
+			out = append(out, streamCase{"Bidi", "pingpong", "echo", n, 0, 0})
 		}
-		out = append(out, streamCase{"CStream", "sendall", "collect", n, 0})
-		out = append(out, streamCase{"Bidi", "concurrent", "collect", n, 0})
-		out = append(out, streamCase{"SStream", "sendall", "burst", 1, n})
-		out = append(out, streamCase{"Bidi", "earlyclose", "sendret", 0, n})
+		out = append(out, streamCase{"CStream", "sendall", "collect", n, 0, 0})
+		out = append(out, streamCase{"Bidi", "concurrent", "collect", n, 0, 0})
+		out = append(out, streamCase{"SStream", "sendall", "burst", 1, n, 0})
+		out = append(out, streamCase{"Bidi", "earlyclose", "sendret", 0, n, 0})
 		for k := 0; k < n; k++ {
-			out = append(out, streamCase{"Bidi", "sendall", "retearly", n, k})
-			out = append(out, streamCase{"Bidi", "concurrent", "retearly", n, k})
+			out = append(out, streamCase{"Bidi", "sendall", "retearly", n, k, 0})
+			out = append(out, streamCase{"Bidi", "concurrent", "retearly", n, k, 0})
 		}
 	}
 	return out
@@ -108,24 +112,34 @@ func c02(tier string) []*explore.Scenario {
 			out = append(out, c02One([]streamCase{c}, cp, bound))
 		}
 	}
+	// messages above 1 KiB (the codec's pooled-buffer path), by-reference and serialising transports
+	for _, ser := range []bool{false, true} {
+		for _, c := range []streamCase{
+			{"Bidi", "sendall", "echo", 2, 0, 2000}, {"Bidi", "pingpong", "echo", 2, 0, 1100}, {"SStream", "sendall", "burst", 1, 3, 4000},
+			{"Bidi", "concurrent", "echo", 2, 0, 2000}, {"CStream", "sendall", "collect", 3, 0, 1500}, {"Bidi", "earlyclose", "sendret", 0, 3, 70000},
+		} {
+			out = append(out, c02OneT([]streamCase{c}, 64, bound-1, ser))
+		}
+		out = append(out, c02OneT([]streamCase{{"SStream", "sendall", "burst", 1, 2, 2000}, {"SStream", "sendall", "burst", 1, 2, 2000}}, 64, 1, ser))
+	}
 	// two streams multiplexed on the connection
 	two := [][]streamCase{
-		{{"Bidi", "pingpong", "echo", 1, 0}, {"Bidi", "pingpong", "echo", 1, 0}},
-		{{"Bidi", "sendall", "echo", 2, 0}, {"SStream", "sendall", "burst", 1, 2}},
-		{{"CStream", "sendall", "collect", 2, 0}, {"Bidi", "concurrent", "echo", 1, 0}},
-		{{"Bidi", "sendall", "retearly", 2, 1}, {"Bidi", "pingpong", "echo", 2, 0}},
+		{{"Bidi", "pingpong", "echo", 1, 0, 0}, {"Bidi", "pingpong", "echo", 1, 0, 0}},
+		{{"Bidi", "sendall", "echo", 2, 0, 0}, {"SStream", "sendall", "burst", 1, 2, 0}},
+		{{"CStream", "sendall", "collect", 2, 0, 0}, {"Bidi", "concurrent", "echo", 1, 0, 0}},
+		{{"Bidi", "sendall", "retearly", 2, 1, 0}, {"Bidi", "pingpong", "echo", 2, 0, 0}},
 	}
 	for _, cs := range two {
 		out = append(out, c02One(cs, 64, bound-1))
 	}
 	if tier == "thorough" {
-		out = append(out, c02One([]streamCase{{"Bidi", "pingpong", "echo", 1, 0}, {"Bidi", "pingpong", "echo", 1, 0}, {"Bidi", "pingpong", "echo", 1, 0}}, 64, 1))
+		out = append(out, c02One([]streamCase{{"Bidi", "pingpong", "echo", 1, 0, 0}, {"Bidi", "pingpong", "echo", 1, 0, 0}, {"Bidi", "pingpong", "echo", 1, 0, 0}}, 64, 1))
 		// long streams and many streams under the default schedule and one deviation
-		out = append(out, c02One([]streamCase{{"Bidi", "pingpong", "echo", 200, 0}}, 64, 0))
-		out = append(out, c02One([]streamCase{{"Bidi", "sendall", "echo", 40, 0}}, 64, 1))
+		out = append(out, c02One([]streamCase{{"Bidi", "pingpong", "echo", 200, 0, 0}}, 64, 0))
+		out = append(out, c02One([]streamCase{{"Bidi", "sendall", "echo", 40, 0, 0}}, 64, 1))
 		var many []streamCase
 		for i := 0; i < 32; i++ {
-			many = append(many, streamCase{"Bidi", "pingpong", "echo", 1, 0})
+			many = append(many, streamCase{"Bidi", "pingpong", "echo", 1, 0, 0})
 		}
 		out = append(out, c02One(many, 64, 0))
 	}
@@ -133,7 +147,14 @@ func c02(tier string) []*explore.Scenario {
 }
 
 func c02One(cases []streamCase, capn, bound int) *explore.Scenario {
+	return c02OneT(cases, capn, bound, false)
+}
+
+func c02OneT(cases []streamCase, capn, bound int, serialize bool) *explore.Scenario {
 	name := fmt.Sprintf("C02/cap=%d", capn)
+	if serialize {
+		name += "/ser"
+	}
 	for _, c := range cases {
 		name += "/" + c.name()
 	}
@@ -144,7 +165,13 @@ func c02One(cases []streamCase, capn, bound int) *explore.Scenario {
 		Bound:  bound,
 		Run: func() {
 			w := env.NewWorld()
-			d := env.NewDirect(w, env.DirectOpts{Pipe: env.PipeOpts{Cap: capn}})
+			env.MsgSize = 0
+			for _, c := range cases {
+				if c.size > env.MsgSize {
+					env.MsgSize = c.size
+				}
+			}
+			d := env.NewDirect(w, env.DirectOpts{Pipe: env.PipeOpts{Cap: capn, Serialize: serialize}})
 			vsched.Settle()
 			vsched.Explore(true)
 			for i, c := range cases {
